@@ -5,6 +5,7 @@ package main
 // abstract value (number precision / constructor, -0, non-NFC input strings).
 
 import (
+	"strings"
 	"fmt"
 	"math/big"
 	"sort"
@@ -44,13 +45,19 @@ func asI(x any) int {
 func asB(x any) bool { return x.(bool) }
 
 // Attribute names / map keys with an abstract (multi-letter) name in the specification.
-var absAttrNames = map[string]string{"eacute": "\u00e9", "ctl": "\x1f", "dq": "\"", "sp": "a b"}
+var absAttrNames = map[string]string{"omega": "\u03a9", "eacute": "\u00e9", "ctl": "\x1f", "dq": "\"", "sp": "a b"}
 var realAttrNames = map[string]string{}
 
 func init() {
 	for a, r := range absAttrNames {
 		realAttrNames[r] = a
 	}
+}
+
+// denorm gives a spelling of s that is NOT in normal form wherever one exists: canonical decomposition
+// (combining marks, conjoining Hangul jamo) and singleton equivalents that carry no combining mark (OHM SIGN for omega).
+func denorm(s string) string {
+	return strings.ReplaceAll(norm.NFD.String(s), "\u03a9", "\u2126")
 }
 
 // realName gives the real spelling of an abstract attribute name / key.
@@ -282,7 +289,7 @@ func concretizeKnown(ty cty.Type, a J, rep int) cty.Value {
 	case ty == cty.String:
 		s := joinRunes(asL(asJ(a["v"])["s"]))
 		if rep%2 == 1 {
-			s = norm.NFD.String(s) // cty normalizes on entry
+			s = denorm(s) // cty normalizes on entry
 		}
 		return cty.StringVal(s)
 	case ty.IsListType():
@@ -340,7 +347,7 @@ func concretizeMap(x any, rep int) map[string]cty.Value {
 	for _, k := range keys {
 		kk := realName(k)
 		if rep%2 == 1 {
-			kk = norm.NFD.String(kk)
+			kk = denorm(kk)
 		}
 		out[kk] = Concretize(asJ(m[k]), rep)
 	}
